@@ -24,13 +24,13 @@ func init() { register("C03", checkC03) }
 
 type mapLoop struct {
 	fd    *ast.FuncDecl
-	stmt  ast.Stmt      // the loop statement
+	stmt  ast.Stmt // the loop statement
 	body  *ast.BlockStmt
-	kind  string        // "range map", "range MapKeys()", "range <keys from MapKeys>", "MapRange"
-	key   types.Object  // loop key variable (may be nil)
-	val   types.Object  // loop value variable (may be nil)
-	over  string        // printable operand
-	keysV types.Object  // for loops over a variable holding MapKeys(): that variable
+	kind  string       // "range map", "range MapKeys()", "range <keys from MapKeys>", "MapRange"
+	key   types.Object // loop key variable (may be nil)
+	val   types.Object // loop value variable (may be nil)
+	over  string       // printable operand
+	keysV types.Object // for loops over a variable holding MapKeys(): that variable
 }
 
 func isMapType(t types.Type) bool {
@@ -652,7 +652,6 @@ func usedOnlyForBookkeeping(in ssa.Instruction) bool {
 	}
 	return walk(v)
 }
-
 
 // onlyFeedsLogger: every call of f in the package is an argument of a call to one of the
 // package's Log* functions, and f is called at least once.
